@@ -428,6 +428,14 @@ def materialise(inst, F=None):
         out['primalstart'] = {'x': V(inst['primalstart']['x']), 's': V(inst['primalstart']['s'])}
     if 'dualstart' in inst:
         out['dualstart'] = {'y': V(inst['dualstart']['y']), 'z': V(inst['dualstart']['z'])}
+    if k in ('socp', 'sdp'):
+        # the wrappers take their start points in block form; build those objects here, once, so that they are
+        # caller-owned arguments like everything else (a wrapper that writes into them must be observable)
+        cone = 'q' if k == 'socp' else 's'
+        if 'primalstart' in out:
+            out['primalstart'] = wrapper_start(inst, out['primalstart'], 's', cone)
+        if 'dualstart' in out:
+            out['dualstart'] = wrapper_start(inst, out['dualstart'], 'z', cone)
     if 'initvals' in inst:
         out['initvals'] = {a: V(v) for a, v in inst['initvals'].items()}
     if k in ('cpl', 'cp'):
@@ -493,16 +501,8 @@ def call_solver(inst, m, kktsolver=None, options=None, use_options_kw=True, extr
         w = split_wrapper_args(inst, m)
         ps, ds = m.get('primalstart'), m.get('dualstart')
         if k == 'socp':
-            if ps is not None:
-                ps = wrapper_start(inst, ps, 's', 'q')
-            if ds is not None:
-                ds = wrapper_start(inst, ds, 'z', 'q')
             return solvers.socp(m['c'], w['Gl'], w['hl'], w['Gq'], w['hq'], A, b,
                                 primalstart=ps, dualstart=ds, **kw)
-        if ps is not None:
-            ps = wrapper_start(inst, ps, 's', 's')
-        if ds is not None:
-            ds = wrapper_start(inst, ds, 'z', 's')
         return solvers.sdp(m['c'], w['Gl'], w['hl'], w['Gs'], w['hs'], A, b,
                            primalstart=ps, dualstart=ds, **kw)
     if k == 'cpl':
